@@ -41,6 +41,8 @@ pub enum TOp {
     Touch { k: u64 },
     Clear,
     EvictAll,
+    /// get_or_fetch with an origin that resolves at once; the calling thread drives the fetch task.
+    Fetch { k: u64 },
 }
 
 #[derive(Debug, Clone, Serialize, Deserialize)]
@@ -124,6 +126,8 @@ struct Held {
     val: u64,
     weight: usize,
     looked_up: bool,
+    /// When the lookup that produced the handle was invoked.
+    invoke: u64,
 }
 
 fn run_ops(cache: &TC, sh: &Arc<Shared>, thread: usize, ops: &[TOp]) -> Vec<Held> {
@@ -155,6 +159,7 @@ fn run_ops(cache: &TC, sh: &Arc<Shared>, thread: usize, ops: &[TOp]) -> Vec<Held
                             weight: e.weight(),
                             e,
                             looked_up: true,
+                            invoke,
                         });
                     } else {
                         release(sh, *e.value());
@@ -176,6 +181,43 @@ fn run_ops(cache: &TC, sh: &Arc<Shared>, thread: usize, ops: &[TOp]) -> Vec<Held
                 cache.evict_all();
                 Obs::Lookup { key: u64::MAX, kind: "evict_all", returned: None }
             }
+            TOp::Fetch { k } => {
+                use std::future::Future;
+                let v = val_of(thread, i);
+                let polled = Arc::new(std::sync::atomic::AtomicBool::new(false));
+                let p2 = polled.clone();
+                let mut fut = Box::pin(cache.get_or_fetch(&k, move || async move {
+                    p2.store(true, Ordering::SeqCst);
+                    Ok::<u64, anyhow::Error>(v)
+                }));
+                let waker = tokio::sim::noop_waker();
+                let mut cx = std::task::Context::from_waker(&waker);
+                let mut spins = 0;
+                let r = loop {
+                    if let std::task::Poll::Ready(r) = fut.as_mut().poll(&mut cx) {
+                        break r.ok().map(|e| *e.value());
+                    }
+                    // Drive the runtime from this (controlled) thread; if nothing is ready, let others run.
+                    match tokio::sim::ready().first() {
+                        Some(id) => {
+                            tokio::sim::poll(*id);
+                        }
+                        None => {
+                            spins += 1;
+                            if spins > 200 {
+                                break None;
+                            }
+                            sched::yield_point("fetch-idle");
+                        }
+                    }
+                };
+                if polled.load(Ordering::SeqCst) {
+                    // the origin ran: its value was (being) inserted by this call
+                    let now = sh.clock.load(Ordering::SeqCst);
+                    sh.log.lock().unwrap().push(Rec { thread, invoke, resp: now, obs: Obs::Insert { key: k, val: v } });
+                }
+                Obs::Lookup { key: k, kind: "gof", returned: r }
+            }
         };
         let resp = sh.clock.fetch_add(1, Ordering::SeqCst);
         sh.log.lock().unwrap().push(Rec { thread, invoke, resp, obs });
@@ -190,7 +232,7 @@ fn release(sh: &Arc<Shared>, val: u64) {
     }
 }
 
-fn finish_held(sh: &Arc<Shared>, held: Vec<Held>) {
+fn finish_held(sh: &Arc<Shared>, held: Vec<Held>, lru: bool) {
     for h in held {
         if *h.e.key() != h.key || *h.e.value() != h.val || h.e.weight() != h.weight {
             sh.complaints.lock().unwrap().push((
@@ -199,6 +241,25 @@ fn finish_held(sh: &Arc<Shared>, held: Vec<Held>) {
             ));
         }
         if h.looked_up {
+            if lru && h.e.is_outdated() {
+                // Replaced / removed / cleared by an explicit call is fine; otherwise it was evicted although a
+                // looked-up handle existed from the moment the lookup returned.
+                let explained = sh.log.lock().unwrap().iter().any(|r| {
+                    r.resp > h.invoke
+                        && match r.obs {
+                            Obs::Insert { key, val } => key == h.key && val != h.val,
+                            Obs::Remove { key, .. } => key == h.key,
+                            Obs::ClearAll => true,
+                            _ => false,
+                        }
+                });
+                if !explained {
+                    sh.complaints.lock().unwrap().push((
+                        "P.pinned-evicted".to_string(),
+                        format!("a handle of key {} (value {}) obtained by a lookup under LRU is outdated while held, and no replace / remove / clear of the key explains it: the entry was evicted", h.key, h.val),
+                    ));
+                }
+            }
             release(sh, h.val);
         }
         drop(h.e);
@@ -260,7 +321,10 @@ fn judge(log: &[Rec]) -> Vec<(String, String)> {
                 Obs::ClearAll => true,
                 _ => false,
             };
-            if supersedes && s.invoke > ins.resp && s.resp < r.invoke {
+            // A remove that itself returned this value has observed the insert: it is ordered after it even
+            // if the two calls overlapped in time.
+            let observed = matches!(s.obs, Obs::Remove { key: k2, returned: Some(v) } if k2 == key && v == returned);
+            if supersedes && (s.invoke > ins.resp || observed) && s.resp < r.invoke && !std::ptr::eq(s, r) {
                 out.push((
                     "R.stale".to_string(),
                     format!(
@@ -294,6 +358,7 @@ struct ExecOut {
 fn execute(job: &TJob, ctx: Arc<Mutex<Ctx>>, on_deadlock: sched::DeadlockHandler) -> ExecOut {
     let sh = Arc::new(Shared::default());
     let ctx2 = ctx.clone();
+    tokio::sim::reset();
     sched::begin(sched::Config {
         chooser: Box::new(move |p: &sched::Point| {
             let mut c = ctx2.lock().unwrap();
@@ -315,24 +380,28 @@ fn execute(job: &TJob, ctx: Arc<Mutex<Ctx>>, on_deadlock: sched::DeadlockHandler
                 lru: job.algo.is_lru(),
             }))
             .build();
+        let lru = job.algo.is_lru();
         let held0 = run_ops(&cache, &sh, 0, &job.prologue);
         let mut handles = vec![];
         for (ti, ops) in job.threads.iter().enumerate() {
             let c = cache.clone();
             let s = sh.clone();
             let ops = ops.clone();
-            handles.push(sched::spawn(&format!("w{}", ti + 1), move || {
-                let held = run_ops(&c, &s, ti + 1, &ops);
-                finish_held(&s, held);
-            }));
+            handles.push(sched::spawn(&format!("w{}", ti + 1), move || run_ops(&c, &s, ti + 1, &ops)));
         }
         let mut panics = vec![];
+        let mut all_held = vec![];
         for h in handles {
-            if let Err(p) = sched::join(h) {
-                panics.push(tokio::sim::panic_message(&p));
+            match sched::join(h) {
+                Ok(held) => all_held.push(held),
+                Err(p) => panics.push(tokio::sim::panic_message(&p)),
             }
         }
-        finish_held(&sh, held0);
+        // Handles are held until every thread has finished (the log is complete by then), re-read, dropped.
+        for held in all_held {
+            finish_held(&sh, held, lru);
+        }
+        finish_held(&sh, held0, lru);
         // quiescent epilogue: accounting must be consistent and within capacity
         let usage = cache.usage();
         let entries = cache.entries();
@@ -652,6 +721,7 @@ fn programs(tier: Tier) -> Vec<(Vec<TOp>, Vec<Vec<TOp>>)> {
         TOp::Get { k: a, hold: false },
         TOp::Get { k: a, hold: true },
         TOp::Touch { k: a },
+        TOp::Fetch { k: a },
     ];
     let extra = vec![TOp::Ins { k: b }, TOp::Ins { k: c }, TOp::Clear, TOp::EvictAll, TOp::Contains { k: a }];
     let mut progs = vec![];
@@ -670,7 +740,7 @@ fn programs(tier: Tier) -> Vec<(Vec<TOp>, Vec<Vec<TOp>>)> {
         for x1 in ops_a.iter() {
             for x2 in all.iter() {
                 for y in ops_a.iter() {
-                    if tier == Tier::Quick && !(matches!(x1, TOp::Get { .. }) || matches!(y, TOp::Ins { .. })) {
+                    if tier == Tier::Quick && !(matches!(x1, TOp::Get { .. } | TOp::Rm { .. }) || matches!(y, TOp::Ins { .. })) {
                         continue;
                     }
                     progs.push((pro.clone(), vec![vec![*x1, *x2], vec![*y]]));
